@@ -41,7 +41,7 @@ FLOORS = {
 TIMEOUT_S = {"quick": 1800, "thorough": 7200}
 N_CASES = {"quick": 40, "thorough": 300}
 FAMILY_CYCLE = ["builtin", "mixed", "builtin", "probe"]
-GEN_CFG = {"max_stmts": 3}
+GEN_CFG = {"max_stmts": 3, "kinds": {"site": 5, "call": 1.0, "vmap": 1.2, "scan": 0.8, "cond": 2.2, "let": 0.4}}
 
 
 def plan(tier, seed):
